@@ -677,7 +677,33 @@ def _stream_job(arg):
     return stats
 
 
+def _pool_job(arg):
+    """Every reference / lower-bound handshake message once: all its prefixes."""
+    shard, shards = arg
+    stats = Stats()
+    layer = 'TlsHandshakeMessageVariant'
+    entries = [{'hex': text, 'cls': _hex_locus(text)} for text in HANDSHAKE_HEX_POOL]
+    entries += [{'hex': text, 'cls': _hex_locus(text), 'lenient': True} for text in reference_pool()]
+    for entry in entries[shard::shards]:
+        case = {'kind': 'prefix', 'layer': layer, 'record': entry}
+        try:
+            findings, count = judge_prefixes(layer, entry)
+        except NotACase:
+            stats.labels['pool:not-a-case'] += 1
+            continue
+        stats.evaluations += 1
+        stats.add('prefixes_parsed', count)
+        stats.labels['pool:messages'] += 1
+        stats.classes[layer] += 1
+        stats.nontriv(b'pool|' + bytes.fromhex(entry['hex']))
+        for finding in findings:
+            stats.finding(finding, case)
+    return stats
+
+
 def _job(arg):
+    if arg[0] == 'pool':
+        return _pool_job(arg[1:])
     return _prefix_job(arg[1:]) if arg[0] == 'prefix' else _stream_job(arg[1:])
 
 
@@ -699,6 +725,7 @@ def _jobs(ctx):
             if layer != 'SshProtocolMessage':
                 jobs.append(('stream', layer, max(1, stream_total // parts), ctx.derive_seed('stream', layer, part),
                              ceiling, budget_s))
+    jobs.extend(('pool', shard, 4) for shard in range(4))
     return jobs
 
 
